@@ -146,7 +146,8 @@ Proof.
   intros H1 H2 H3 H4 H5 H6 HJ.
   assert (HJ' : (86 <= length junk)%nat) by (rewrite HJ; unfold EthMaxSize; lia).
   destruct (split_at 86 junk HJ') as (j & rest & -> & Hj). clear HJ HJ'.
-  unfold send_na, icmp6_send_packet. destruct c as [hm hip hlla rm rip mtu]. cbn [host_mac a_ip a_mac fst snd] in *.
+  unfold send_na. cbn [a_mac fst]. rewrite (proj1 H5). cbn [Nat.eqb negb].
+  unfold icmp6_send_packet. destruct c as [hm hip hlla rm rip mtu]. cbn [host_mac a_ip a_mac fst snd] in *.
   replace (nd_message (na_marshal false false true (tm, ti))) with true by reflexivity. rewrite orb_true_r.
   unfold wf_na.
   explode_ok hm H1; explode_ok dm H2; explode_ok si H3; explode_ok di H4; explode_ok tm H5; explode_ok ti H6.
@@ -154,3 +155,15 @@ Proof.
   eexists; split; [cbn; reflexivity|]. abs_cks.
   run; eqbs. icmp6_cks.
 Qed.
+
+(* a target MAC that cannot be the 6-byte target link-layer address is refused (since fix 1cf31e2) *)
+Lemma na_refuses c src dst tm ti junk : Nat.eqb (length tm) 6 = false -> send_na c src dst (tm, ti) junk = Ok [].
+Proof. unfold send_na. cbn [a_mac fst]. intros ->. reflexivity. Qed.
+
+(* the source Addr's MAC plays no role in echo / NS / NA: the Ethernet source is the NIC MAC *)
+Lemma src_mac_irrelevant c sm sm' si dst id seq tg tgt junk :
+  send_echo4 c (sm, si) dst id seq junk = send_echo4 c (sm', si) dst id seq junk /\
+  send_echo6 c (sm, si) dst id seq junk = send_echo6 c (sm', si) dst id seq junk /\
+  send_ns c (sm, si) dst tg junk = send_ns c (sm', si) dst tg junk /\
+  send_na c (sm, si) dst tgt junk = send_na c (sm', si) dst tgt junk.
+Proof. repeat split; reflexivity. Qed.
